@@ -238,6 +238,10 @@ def check_accept(pairs, node, ctxname, concrete_reparse=True):
         out["ref"] = rj.category
         if rj.category.startswith("syntax:") and rj.category != "syntax:other":
             out["c17"] = (rj.category, "accepted although %s" % rj)
+        if rj.category == "semantic:member" and "'size_t' is not a member of 'std'" not in str(rj):
+            # (std::size_t exists in C++; the reference's table of std members is Shroud's: string and vector)
+            # a qualified name whose last component is not declared in the scope it names: no C++ compiler derives a type
+            out["c09"] = "(a) accepted although %s (qualified lookup does not search enclosing scopes)" % rj
         return out
     except RecursionError:
         out["ref"] = "ref-recursion"
